@@ -2,6 +2,7 @@ package main
 
 import (
 	"fmt"
+	"go/token"
 	"go/types"
 	"strings"
 
@@ -120,6 +121,13 @@ func ruleConnIdentity(c *Ctx) {
 		}
 		// closures nested in executors see the executor's conn as a free variable
 		isOwn := func(v ssa.Value) bool {
+			// a closure of the connection's own function (a deferred or observer callback) sees the
+			// connection as a captured variable: the load of a free variable holding a *Conn
+			if ld, ok := v.(*ssa.UnOp); ok && ld.Op == token.MUL {
+				if fv, ok := ld.X.(*ssa.FreeVar); ok && strings.HasSuffix(deref(fv.Type()).String(), "redis.Conn") {
+					return true
+				}
+			}
 			v = strip(v)
 			if own != nil && v == ssa.Value(own) {
 				return true
